@@ -290,7 +290,28 @@ fn nonterminal(p: &Pos) -> bool {
     !p.legal_moves().is_empty()
 }
 
+/// Positions whose depth-1 search already runs to tens of thousands of nodes (many queens facing
+/// each other: the capture search explodes), so that a stop or an expired limit can be seen before
+/// the first root move has been scored.
+fn quiescence_heavy(rng: &mut Rng) -> Option<Pos> {
+    for _ in 0..200 {
+        let c = SynthCfg { max_extra: 30, wild: true, focus: true, castling: false };
+        let Some(p) = synth(rng, &c) else { continue };
+        let queens = p.b.iter().flatten().filter(|pc| pc.k == Kind::Q).count();
+        let wq = p.b.iter().flatten().filter(|pc| pc.k == Kind::Q && pc.c == Color::W).count();
+        if queens >= 8 && wq >= 3 && queens - wq >= 3 && !p.legal_moves().is_empty() {
+            return Some(p);
+        }
+    }
+    None
+}
+
 fn random_position(rng: &mut Rng, roots: &[Pos], l: &mut Local) -> Option<(String, Vec<String>, Pos)> {
+    if rng.chance(1, 14) {
+        let p = quiescence_heavy(rng)?;
+        l.feat("pos_quiescence_heavy");
+        return Some((p.to_fen(EpConv::Always), vec![], p));
+    }
     match rng.below(10) {
         0..=1 => {
             let f = *rng.pick(&MATE_ROOTS);
@@ -343,6 +364,21 @@ fn random_position(rng: &mut Rng, roots: &[Pos], l: &mut Local) -> Option<(Strin
 
 fn random_limit(rng: &mut Rng, p: &Pos, budget: u8, l: &mut Local) -> Limit {
     let men = p.b.iter().flatten().count();
+    if p.b.iter().flatten().filter(|pc| pc.k == Kind::Q).count() >= 8 {
+        // the first iteration alone is expensive here: limits that expire inside it
+        return match rng.below(4) {
+            0 => Limit::Depth(1 + rng.below(2) as u8),
+            1 => {
+                l.feat("limit_movetime");
+                Limit::MoveTime(1 + rng.below(3))
+            }
+            2 => Limit::DepthStop(3, 1 + rng.below(4)),
+            _ => {
+                l.feat("limit_clock");
+                Limit::Clock(2, 2, 0, 0, Some(1))
+            }
+        };
+    }
     match rng.below(20) {
         0..=11 => {
             let max = if men <= 5 { budget + 3 } else if men <= 10 { budget + 1 } else { budget };
@@ -875,7 +911,8 @@ pub fn run_c09(args: &Args, seed: u64, tier: &str, report: &Report) -> String {
             tries += 1;
             let Some((fen, moves, p)) = random_position(&mut rng, &roots, &mut l) else { continue };
             let men = p.b.iter().flatten().count();
-            let depth = if men <= 6 { 8 + rng.below(5) as u8 } else { 6 + rng.below(4) as u8 };
+            let queens = p.b.iter().flatten().filter(|pc| pc.k == Kind::Q).count();
+            let depth = if queens >= 8 { 1 + rng.below(2) as u8 } else if men <= 6 { 8 + rng.below(5) as u8 } else { 6 + rng.below(4) as u8 };
             let warm = match rng.below(3) {
                 0 => vec![],
                 1 => {
@@ -910,6 +947,161 @@ pub fn run_c09(args: &Args, seed: u64, tier: &str, report: &Report) -> String {
             }
             report.merge_local(&mut l);
         }
+    });
+    rule.into()
+}
+
+// =========================================================================================
+// C11 (search level) — the fifty-move draw as the search applies it
+
+/// No mate line may pass through a position that is already drawn by the fifty-move rule.
+fn mate_line_crosses_fifty(root: &Pos, inf: &InfoRec) -> Option<String> {
+    inf.mate?;
+    let mut p = root.clone();
+    for (i, m) in inf.pv.iter().enumerate() {
+        let legal = p.legal_moves();
+        let x = legal.iter().find(|x| x.from == m.from && x.to == m.to && x.promo == m.promo)?;
+        p = p.make(*x);
+        if i + 1 < inf.pv.len() && p.hmc >= 100 && !p.legal_moves().is_empty() {
+            return Some(format!("after {} plies of the announced mate line the halfmove clock is {} and the side to move has a legal move: the game is drawn there", i + 1, p.hmc));
+        }
+    }
+    None
+}
+
+pub fn run_c11_search(args: &Args, seed: u64, tier: &str, report: &Report) -> String {
+    let rule = "search level: (a) roots with halfmove clock 99 where every legal move is a quiet piece move: the reported score of every iteration must be 'mate 1' if a legal move checkmates and exactly 0 otherwise; (b) no announced mate line passes through a position with clock >= 100 in which the side to move has a legal move; distinct = distinct (FEN, depth)";
+    let thorough = tier == "thorough";
+    let judge = |fen: &str, depth: u8, l: &mut Local| -> Option<(String, String)> {
+        let p = Pos::from_fen(fen).ok()?;
+        let g = Game::from_fen(fen).ok()?;
+        let legal = p.legal_moves();
+        if legal.is_empty() {
+            return None;
+        }
+        let all_quiet = p.hmc == 99 && legal.iter().all(|m| !m.capture && p.b[m.from as usize].map(|x| x.k) != Some(Kind::P));
+        let mut ps = PersistentState::new(1);
+        l.evaluations += 1;
+        let out = match do_search(&g, &mut ps, &Limit::Depth(depth), 0) {
+            Ok(o) => o,
+            Err(_) => {
+                l.feat("search_panicked_not_judged_here");
+                return None;
+            }
+        };
+        for inf in out.infos.iter() {
+            if let Some(t) = mate_line_crosses_fifty(&p, inf) {
+                return Some(("c11.search.mate-through-fifty-move-draw".into(), format!("{t}: {} [{fen} depth {depth}]", inf.text())));
+            }
+            if inf.mate.is_some() {
+                l.feat("mate_lines_checked_against_the_clock");
+            }
+        }
+        // A quiet move that stalemates the opponent is outside this oracle: at the horizon the engine
+        // hands such a child to the capture search, which (like most engines') does not look for
+        // stalemate and returns the static evaluation - unrelated to the fifty-move rule.
+        let stalemating_move = legal.iter().any(|m| {
+            let n = p.make(*m);
+            !n.in_check(n.stm) && n.legal_moves().is_empty()
+        });
+        if all_quiet && stalemating_move {
+            l.feat("clock_99_roots_skipped_stalemating_move");
+        }
+        if all_quiet && !stalemating_move {
+            l.feat("clock_99_all_moves_quiet_roots");
+            let mates_in_one = legal.iter().any(|m| p.make(*m).is_checkmate());
+            if mates_in_one {
+                l.feat("clock_99_mate_on_the_100th_halfmove");
+            }
+            if legal.iter().any(|m| {
+                let n = p.make(*m);
+                n.in_check(n.stm) && !n.legal_moves().is_empty()
+            }) {
+                l.feat("clock_99_root_with_a_non_mating_check");
+            }
+            for inf in out.infos.iter() {
+                let ok = if mates_in_one { inf.mate == Some(1) } else { inf.cp == Some(0) };
+                if !ok {
+                    let sig = if mates_in_one { "c11.search.mate-on-100th-halfmove-not-seen" } else { "c11.search.fifty-move-draw-not-applied" };
+                    return Some((sig.into(), format!("clock 99, every move is a quiet piece move, {}: expected {}, engine reports {} [{fen} depth {depth}]", if mates_in_one { "one of them checkmates" } else { "none checkmates" }, if mates_in_one { "mate 1" } else { "score 0" }, inf.text())));
+                }
+            }
+        }
+        None
+    };
+    if let Some(fen) = args.get("--fen") {
+        let depth = args.u64("--depth", 4) as u8;
+        let mut l = Local::default();
+        l.distinct.insert(1);
+        l.distinct.insert(2);
+        if let Some((sig, what)) = judge(fen, depth, &mut l) {
+            report.violation(Violation { monitor: "c11".into(), signature: sig, what, replay_args: vec![], detail: J::Null });
+        }
+        l.evaluations = l.evaluations.max(1);
+        report.merge_local(&mut l);
+        return rule.into();
+    }
+    let cases = args.u64("--cases", if thorough { 120_000 } else { 6_000 });
+    let roots = corpus_roots();
+    run_shards(16, 256, |shard| {
+        let mut l = Local::default();
+        let mut rng = Rng::new(seed, 13_000 + shard as u64);
+        let mut made = 0;
+        let mut tries = 0;
+        while made < cases / 16 && tries < cases * 10 {
+            tries += 1;
+            let p: Pos = match rng.below(10) {
+                0..=5 => {
+                    // pawnless, piece-rich positions with no capture available
+                    let c = SynthCfg { max_extra: *rng.pick(&[2usize, 3, 4, 5, 7]), wild: true, focus: false, castling: false };
+                    let Some(mut p) = synth(&mut rng, &c) else { continue };
+                    for s in 0..64 {
+                        if matches!(p.b[s], Some(pc) if pc.k == Kind::P) {
+                            p.b[s] = None;
+                        }
+                    }
+                    p.hmc = 99;
+                    if !p.is_legal_position() || p.legal_moves().iter().any(|m| m.capture) {
+                        continue;
+                    }
+                    p
+                }
+                6..=7 => {
+                    let mut p = Pos::from_fen(*rng.pick(&MATE_ROOTS)).unwrap();
+                    p.hmc = *rng.pick(&[94u32, 96, 97, 98, 99]);
+                    p
+                }
+                _ => {
+                    let mut p = rng.pick(&roots).clone();
+                    for _ in 0..rng.below(30) {
+                        let legal = p.legal_moves();
+                        if legal.is_empty() {
+                            break;
+                        }
+                        p = p.make(pick_move(&p, &legal, &mut rng));
+                    }
+                    p.hmc = *rng.pick(&[96u32, 97, 98, 99]);
+                    p
+                }
+            };
+            if !p.is_legal_position() || p.legal_moves().is_empty() {
+                continue;
+            }
+            made += 1;
+            let depth = 1 + rng.below(if p.b.iter().flatten().count() <= 6 { 6 } else { 4 }) as u8;
+            let fen = p.to_fen(EpConv::Always);
+            l.distinct.insert(hash_str(&format!("{fen}@{depth}")));
+            if made == 3 && shard < 2 {
+                l.samples.push(js(format!("{fen} depth {depth}")));
+            }
+            if let Some((sig, what)) = judge(&fen, depth, &mut l) {
+                report.violation(Violation { monitor: "c11".into(), signature: sig, what, replay_args: vec!["c11s".into(), "--fen".into(), fen, "--depth".into(), depth.to_string()], detail: J::Null });
+            }
+            if made % 50 == 0 {
+                report.merge_local(&mut l);
+            }
+        }
+        report.merge_local(&mut l);
     });
     rule.into()
 }
